@@ -47,6 +47,10 @@ DEGENERATE = [
 ]
 
 
+# operands whose filled region is EMPTY: union and difference ignore them, an intersection with one is empty
+EMPTY_OPERANDS = ["", "M5,5", "M10,10 L10,10", "M10,10 L40,10", "M10,10 L10,40 Z", "M10,10 L40,40 L10,10 Z"]
+
+
 def shift(d, off):
     cmds = R1.exploded(R1.parse(d))
     out = []
@@ -238,15 +242,16 @@ def evaluate_skiafail(case):
                 if why and len(viols) < 6:
                     viols.append({"sig": {"kind": "wrong-region-where-skia-fails", "api": "pathops", "op": opname}, "case": {"fam": "one", "api": "pathops", "op": opname, "ds": [first_op, dstr], "rules": ["nonzero", "nonzero"], "deg": True}, "detail": {"why": f"Skia's op() raises PathOpsError for ({first_op!r}, {dstr!r}); svg_pathops.{opname} returned a path instead: {why}"}})
             for dstr in variants:
-              for api in ("pathops", "path"):
+              # (a one-operand union / intersection / difference is nothing but the final simplify: same requirement)
+              for api, opn in (("pathops", "remove_overlaps"), ("path", "remove_overlaps"), ("pathops", "union"), ("pathops", "intersection"), ("pathops", "difference"), ("shapes", "union")):
                 for rule in RULES:
-                    o, why, np_ = judge(api, "remove_overlaps", [dstr], [rule], case["seed"], True)
+                    o, why, np_ = judge(api, opn, [dstr], [rule], case["seed"], True)
                     outs["skiafail/" + o] += 1
                     if len(dstr) > 90:
                         outs["skiafail-in-square/" + o] += 1
-                    nts.add(core.h64(dstr + api + rule))
+                    nts.add(core.h64(dstr + api + opn + rule))
                     if why and len(viols) < 6:
-                        viols.append({"sig": {"kind": "wrong-region-where-skia-fails", "api": api, "op": "remove_overlaps"}, "case": {"fam": "one", "api": api, "op": "remove_overlaps", "ds": [dstr], "rules": [rule], "deg": True}, "detail": {"why": f"Skia's simplify() raises PathOpsError on {dstr!r}; {api}.remove_overlaps({rule}) returned a path instead: {why}"}})
+                        viols.append({"sig": {"kind": "wrong-region-where-skia-fails", "api": api, "op": opn}, "case": {"fam": "one", "api": api, "op": opn, "ds": [dstr], "rules": [rule], "deg": True}, "detail": {"why": f"Skia's simplify() raises PathOpsError on {dstr!r}; {api}.{opn}({rule}) returned a path instead: {why}"}})
     outs["skiafail/scanned"] += n
     return {"n": n, "outs": outs, "nts": nts, "viol": viols}
 
@@ -323,6 +328,18 @@ def all_items(tier, seed):
                 for op in ("union", "intersection", "difference"):
                     yield ("pathops", op, [quad_lib[i] for i in combo], list(rs), False)
     # empty list
+    # empty operands in every position of 2- and 3-operand calls
+    full = [LIB["square"], shift(LIB["pentagram"], (17, 11))]
+    for e in EMPTY_OPERANDS:
+        for a in full:
+            for rs in (("nonzero", "nonzero"), ("evenodd", "nonzero"), ("nonzero", "evenodd")):
+                for op in ("union", "intersection", "difference"):
+                    yield ("pathops", op, [a, e], list(rs), True)
+                    yield ("pathops", op, [e, a], list(rs), True)
+                    yield ("shapes", op, [a, e], list(rs), True)
+            for op in ("union", "intersection", "difference"):
+                yield ("pathops", op, [full[0], e, full[1]], ["nonzero"] * 3, True)
+                yield ("pathops", op, [full[0], full[1], e], ["nonzero"] * 3, True)
     # degenerate family
     for label, ds in DEGENERATE:
         for rs in itertools.product(RULES, repeat=2):
@@ -354,7 +371,7 @@ def run(run):
         f"E2 + winding-number oracle: {len(LIB)} outlines (square, triangle, bow-tie, pentagram, nested squares same/opposite direction, cubic blob, quadratic lens, open polyline, open curve, "
         "two disjoint contours, tiny square) at 3 offsets; operand tuples of length 1-2 full and 3 over a sub-library (quick) / 1-3 full and 4 over 5 outlines (thorough) x fill rule per operand "
         "x {union, intersection, difference, remove_overlaps} via svg_pathops.*, the shape-level wrappers (clip_rule governs, fill_rule set to the opposite; explicit fill_rules) and "
-        "SVGPath.remove_overlaps; degenerate family (shared edge, duplicate, reversed duplicate, touching vertex, contained shared edge, collinear overlap). Oracle: at every lattice point "
+        "SVGPath.remove_overlaps; degenerate family (shared edge, duplicate, reversed duplicate, touching vertex, contained shared edge, collinear overlap); operands with an empty region (lone moveto, zero-length, open line, zero-width, back-and-forth) in every position of 2- and 3-operand calls. Oracle: at every lattice point "
         "farther than 0.3 from any operand/result edge: inside(result, nonzero) == set combination of inside(operand_i, rule_i) and inside(result, evenodd) == inside(result, nonzero). "
         "Non-trivial = >= 5 compared points inside and >= 5 outside the expected region (distinct operand tuples)."
     )
